@@ -7,18 +7,18 @@ cd "$WT" || exit 2
 [ -f seed/patch.diff ] || { echo "no patch"; exit 2; }
 DEST=/verif/seeded/$ID; mkdir -p "$DEST"
 # 1. state: library change applied + demo present (as the agent left it). Move the demo aside for the baseline run.
-mkdir -p /tmp/seed-aside-$ID; mv pie/tests/seed_demo.rs /tmp/seed-aside-$ID/ 2>/dev/null
+mkdir -p /tmp/seed-aside-$ID; mv pie/tests/seed_demo.rs /tmp/seed-aside-$ID/ 2>/dev/null; mv graph/tests/seed_demo.rs /tmp/seed-aside-$ID/graph_seed_demo.rs 2>/dev/null
 git checkout -- pie/src graph/src 2>/dev/null; git apply seed/patch.diff || { echo "patch does not apply"; exit 2; }
 BASE=$(cargo test --workspace --no-fail-fast --offline 2>&1 | grep -E "^test result" | awk '{p+=$4; f+=$6} END {print p" passed "f" failed"}')
 echo "baseline with change: $BASE"
-cp /tmp/seed-aside-$ID/seed_demo.rs pie/tests/seed_demo.rs
-WITH=$(cargo test -p pie --test seed_demo --offline --features file_hash_checker 2>&1 | grep -E "^test result" | tail -1)
+[ -f /tmp/seed-aside-$ID/seed_demo.rs ] && cp /tmp/seed-aside-$ID/seed_demo.rs pie/tests/seed_demo.rs; [ -f /tmp/seed-aside-$ID/graph_seed_demo.rs ] && { mkdir -p graph/tests; cp /tmp/seed-aside-$ID/graph_seed_demo.rs graph/tests/seed_demo.rs; }
+WITH=$(cargo test -p pie -p pie_graph --test seed_demo --offline --features pie/file_hash_checker 2>&1 | grep -E "^test result" | tail -1)
 echo "demo with change: $WITH"
 git apply -R seed/patch.diff
-WITHOUT=$(cargo test -p pie --test seed_demo --offline --features file_hash_checker 2>&1 | grep -E "^test result" | tail -1)
+WITHOUT=$(cargo test -p pie -p pie_graph --test seed_demo --offline --features pie/file_hash_checker 2>&1 | grep -E "^test result" | tail -1)
 echo "demo without change: $WITHOUT"
 git apply seed/patch.diff
-cp seed/patch.diff "$DEST/patch.diff"; cp pie/tests/seed_demo.rs "$DEST/seed_demo.rs"; cp seed/meta.json "$DEST/agent_meta.json" 2>/dev/null
+cp seed/patch.diff "$DEST/patch.diff"; cp pie/tests/seed_demo.rs "$DEST/seed_demo.rs" 2>/dev/null || cp graph/tests/seed_demo.rs "$DEST/seed_demo.rs"; cp seed/meta.json "$DEST/agent_meta.json" 2>/dev/null
 python3 - "$ID" "$PROP" "$BASE" "$WITH" "$WITHOUT" <<'PY'
 import json,sys,os
 id,prop,base,w,wo=sys.argv[1:6]
@@ -28,7 +28,7 @@ try: am=json.load(open(dest+'/agent_meta.json'))
 except Exception: pass
 meta={"id":id,"property":prop,"summary":am.get("summary",""),"needs_to_manifest":am.get("needs_to_manifest",""),
  "confirmed_in_scratch_worktree":{"existing_tests_with_change":base,"demo_with_change":w,"demo_without_change":wo,
-  "commands":["cargo test --workspace --no-fail-fast --offline (demo moved aside)","cargo test -p pie --test seed_demo --offline --features file_hash_checker (with / without patch)"]},
+  "commands":["cargo test --workspace --no-fail-fast --offline (demo moved aside)","cargo test -p pie -p pie_graph --test seed_demo --offline --features pie/file_hash_checker (with / without patch)"]},
  "checks_run_against_it":{}}
 json.dump(meta,open(dest+'/meta.json','w'),indent=1)
 PY
